@@ -164,7 +164,7 @@ def make_scratch(tag, mounts=None, models=True, extra_lib=None):
         if not os.path.exists(sp):
             raise RuntimeError("source file %s vanished from /repo" % rel)
         with open(sp, "a") as f:
-            f.write('\n#[cfg(kani)]\n#[path = "%s"]\nmod verif_kani;\n' % hp)
+            f.write('\n#[cfg(kani)]\n#[path = "%s"]\npub(crate) mod verif_kani;\n' % hp)
     with open(os.path.join(src, "src", "lib.rs"), "a") as f:
         f.write('\n#[cfg(kani)]\n#[path = "%s"]\npub(crate) mod verif_common;\n' % os.path.join(HARNESS_DIR, "common.rs"))
         if extra_lib:
@@ -259,7 +259,9 @@ def build_deps_cache(force=False):
 
 class Harness:
     def __init__(self, name, timeout=300, tier="quick", desc="", bounds="", funcs=None,
-                 stubs=None, assumes=None, expect_cover=True, extra=None, group=None):
+                 stubs=None, assumes=None, expect_cover=True, extra=None, group=None,
+                 unwind_is_violation=False):
+        self.unwind_is_violation = unwind_is_violation
         self.name = name
         self.timeout = timeout
         self.tier = tier          # "quick": run in both tiers; "thorough": thorough only
@@ -355,6 +357,9 @@ def run_kani_harness(h, src, target_dir, logdir, playback=False):
         else:
             r["verdict"] = "pass"
             r["why"] = ""
+    elif r["failed"] and r["unwind_fail"] and not h.unwind_is_violation and all("unwinding assertion" in f["desc"] for f in r["failed_checks"]):
+        r["verdict"] = "error"
+        r["why"] = "unwinding bound of the harness too small for the current code: " + "; ".join(f["loc"] for f in r["failed_checks"][:3])
     elif r["failed"]:
         if r["cbmc_error"] and not r["failed_checks"]:
             r["verdict"] = "undecided"
